@@ -438,3 +438,61 @@ Example C01_plan_edit_history :
   build_log sum_run [A; B] [A; B] r3 = [(101, true)] /\                   (* B is new again  *)
   build_log sum_run [A'; B] [A'; B] r4 = [(100, true); (101, true)].      (* A redefined      *)
 Proof. vm_compute. repeat split; reflexivity. Qed.
+
+(* ------------------------------------------------------------------------------------------ *)
+(* Amended (dynamic) inputs with deferral (model/Engine.v, Section Amend)                      *)
+(* ------------------------------------------------------------------------------------------ *)
+From SV Require Import proofs.EngineAmendProofs.
+
+(* The statement for this fragment: the ungated engine (remembered amended edges and the deferred
+   flag do not block a rerun) on projects whose order is topological for amended edges too.
+   NOT proved: it needs "a build ends in a finished state from every state that builds reach";
+   proved is the other half, that a finished state is determined by the world. *)
+Definition C01_amend_full : Prop :=
+  forall run amend proj, wf_a amend proj ->
+    C01_full_for empty_asys (build_world_a run amend false proj)
+                 (fun a b => same_result proj (abase a) (abase b)).
+
+Section Amended.
+  Variable run : N -> list (option N) -> list (option N) -> N -> N.
+  Variable amend : N -> list (option N) -> list N.
+
+  (* Finished_a = at every step, with its amended inputs made explicit: declared and amended
+     inputs all available => SUCCEEDED with outputs run(contents of declared ++ amended inputs,
+     variables); otherwise PENDING.  Two finished states with the same sources and environment
+     have the same step states and the same outputs of SUCCEEDED steps -- whatever the builds
+     before did and whatever amended edges and deferred flags they left. *)
+  Theorem C01_amended_finished_state_unique_partial :
+    forall (proj : project) (y z : sys),
+      wf_a amend proj -> Finished_a run amend proj y -> Finished_a run amend proj z ->
+      same_world proj y z -> same_result proj y z.
+  Proof. exact (finished_a_unique run amend). Qed.
+End Amended.
+
+(* D28 at this level.  With the dispatch gating of the code (a remembered amended input that is an
+   output of a step that cannot run blocks the consumer) the statement is false: step 2 amended the
+   output of step 1 while its script had version 5; then the script changes to version 6 (amends
+   nothing) and the source of step 1 disappears: incrementally step 2 is never dispatched, from
+   scratch it runs and succeeds.  Without the gating the two agree on this history. *)
+Theorem C01_D28_engine_refuted :
+  let inc g := bw28 g w28b (bw28 g w28a empty_asys) in
+  let scr g := bw28 g w28b empty_asys in
+  map (stt (abase (bw28 true w28a empty_asys))) [1; 2] = [Succeeded; Succeeded] /\
+  adyn (bw28 true w28a empty_asys) 2 = [10] /\
+  a_build_log mix_run (amend_tab tab28) true p28 p28 (resync_a p28 (bw28 true w28a empty_asys) w28b) = [] /\
+  map (stt (abase (inc true))) [1; 2] = [Pending; Pending] /\
+  map (stt (abase (scr true))) [1; 2] = [Pending; Succeeded] /\
+  same_result_b p28 (abase (inc true)) (abase (scr true)) = false /\
+  a_build_log mix_run (amend_tab tab28) false p28 p28 (resync_a p28 (bw28 false w28a empty_asys) w28b)
+    = [(2, true)] /\
+  same_result_b p28 (abase (inc false)) (abase (scr false)) = true.
+Proof. exact D28_engine_refuted. Qed.
+
+(* the hypothesis wf_a is satisfiable: the project of the witness *)
+Example C01_wf_a_p28 : wf_a (amend_tab tab28) p28.
+Proof.
+  intros y. unfold eproj, p28, eff, extra_now, amend_tab, tab28. cbn [map inp sid envn out].
+  destruct (fs y 3); destruct (fs y 2) as [c|]; cbn [find fst snd];
+    try (vm_compute; reflexivity).
+  all: change (2 =? 2) with true; cbn [andb]; destruct (5 =? c); vm_compute; reflexivity.
+Qed.
